@@ -7,8 +7,9 @@
      src/units/bmp_tcp_in/http/router_list/request.rs   RouterListApi::process_request + sort_routers (parameter part)
      src/units/mrt_file_in/api.rs              Processor::process_request (unit configured without update_path)
    Panic sites of the code are explicit [PPanic]/[Panic] outcomes.
-   hyper's own parser is not modelled: [request_ok] states which byte strings
-   the http crate lets through to the handler. *)
+   hyper's own parser is modelled in Http/WireModel.v (bytes on a connection ->
+   requests delivered / refused); here [request_ok] states which (path, query,
+   header value) byte strings the http crate lets through to the handler. *)
 From Coq Require Import NArith List Bool String.
 From RV Require Import Http.DispatchText.
 Import ListNotations.
@@ -339,8 +340,16 @@ Definition gzip_decision (strict : bool) (compress : bool) (hs : list (bytes * b
     end
   else Some false.
 
+(* [rq_path] is what Uri::path() returns: a path that starts with '/' for an origin-form or absolute-form
+   request-target ("/" when an absolute-form target has none), "*" for the asterisk-form, "" for the
+   authority-form (`GET localhost:80 HTTP/1.1`, and any target without '/' that parses as an authority, such as
+   `GET status HTTP/1.1`). hyper delivers all four forms to the handler whatever the method is (found with the
+   engine c12tcp: the definition used to demand the leading '/'; Http/WireProofs.v ties it to the wire parser). *)
+Definition path_shape_ok (p : bytes) : bool :=
+  starts_with [47] p || beqb p k_star || match p with [] => true | _ => false end.
+
 Definition request_ok (r : request) : bool :=
-  starts_with [47] (rq_path r) && forallb path_byte_ok (rq_path r) &&
+  path_shape_ok (rq_path r) && forallb path_byte_ok (rq_path r) &&
   match rq_query r with None => true | Some q => forallb query_byte_ok q end &&
   forallb (fun h => forallb hv_byte_ok (snd h)) (rq_headers r).
 
